@@ -67,6 +67,29 @@ func genC04(t *rapid.T) C04Case {
 	for i := range hosts {
 		hosts[i] = rapid.SampledFrom(c04Hosts).Draw(t, "host")
 	}
+	if chanceT(t, "deep", 35) {
+		// deep trees: chains of 3..5 nested directories with siblings, mostly on one host, each path declared
+		// with one or two non-exact types. Which priority file a rule lands in depends on the files created
+		// for the longer rules (and the hosts) processed before it.
+		for _, p := range c04DeepPaths {
+			if !chanceT(t, "usepath", 65) {
+				continue
+			}
+			h := hosts[0]
+			if len(hosts) > 1 && chanceT(t, "otherhost", 20) {
+				h = hosts[1]
+			}
+			ty := rapid.SampledFrom([]string{"prefix", "begin", "prefix", "begin", "exact"}).Draw(t, "rtype")
+			c.Rules = append(c.Rules, C04Rule{Host: h, Path: p, Type: ty})
+			if ty != "exact" && chanceT(t, "bothtypes", 25) {
+				other := map[string]string{"prefix": "begin", "begin": "prefix"}[ty]
+				c.Rules = append(c.Rules, C04Rule{Host: h, Path: p, Type: other})
+			}
+		}
+		if len(c.Rules) > 0 {
+			return c
+		}
+	}
 	n := rapid.IntRange(1, sizeScale(8, 12)).Draw(t, "nrules")
 	for i := 0; i < n; i++ {
 		c.Rules = append(c.Rules, C04Rule{
@@ -77,6 +100,8 @@ func genC04(t *rapid.T) C04Case {
 	}
 	return c
 }
+
+var c04DeepPaths = []string{"/", "/a", "/a/b", "/a/x", "/a/x/y", "/a/x/y/z", "/p", "/p/q", "/p/q/r", "/P/q", "/a/X"}
 
 type c04Built struct {
 	maps   map[string]*hatypes.HostsMap // host group ("" or <default>) -> map
@@ -211,6 +236,32 @@ func c04MixedCaseOverlap(rules []C04Rule, host string) bool {
 	return false
 }
 
+// c04RequestPaths: the fixed request alphabet plus the neighbours of every declared path of the case
+// (the path itself, with a trailing slash, one level below, a sibling spelling and another case), so
+// that a saved or hand-written case over other paths is evaluated as thoroughly as a generated one.
+func c04RequestPaths(rules []C04Rule) []string {
+	seen := map[string]bool{}
+	var out []string
+	add := func(p string) {
+		if !seen[p] {
+			seen[p] = true
+			out = append(out, p)
+		}
+	}
+	for _, p := range c04ReqPaths {
+		add(p)
+	}
+	for _, r := range rules {
+		base := strings.TrimSuffix(r.Path, "/")
+		add(r.Path)
+		add(base + "/")
+		add(base + "/1")
+		add(base + "1")
+		add(strings.ToUpper(base) + "/1")
+	}
+	return out
+}
+
 func execC04(c C04Case) *Failure {
 	st := getStats("C04")
 	b := c04Build(c)
@@ -244,7 +295,7 @@ func execC04(c C04Case) *Failure {
 		if h == hatypes.DefaultHost {
 			m = b.maps[hatypes.DefaultHost]
 		}
-		for _, p := range c04ReqPaths {
+		for _, p := range c04RequestPaths(b.rules) {
 			lookups++
 			got, file := c04Lookup(m, h, p)
 			want := refWinners(b.rules, h, p)
